@@ -236,10 +236,25 @@ func (f *FnVC) havocAll() {
 	// a fresh root-like state: every heap gets a new unconstrained version
 	nr := f.st.get("$nextref")
 	ns := &State{f: f, m: map[string]string{}, kind: stHavoc, id: id}
+	// bookkeeping ghosts of the function under verification (defer flags, visited sets, spawn/receive counters)
+	// belong to this activation: no callee can change them
+	for _, h := range sortedKeys(f.heapSortSet()) {
+		if strings.HasPrefix(h, "Gh_$") {
+			ns.m[h] = f.st.get(h)
+		}
+	}
 	f.st = ns
 	nn := f.freshConst("nextref", "Int")
 	f.fact("(>= " + nn + " " + nr + ")")
 	f.st.set("$nextref", nn)
+}
+
+func (f *FnVC) heapSortSet() map[string]bool {
+	m := map[string]bool{}
+	for h := range f.heapSort {
+		m[h] = true
+	}
+	return m
 }
 
 // havocArgs: one-level havoc of the objects directly reachable from pointer/slice/map arguments.
